@@ -283,8 +283,8 @@ reserved at-rules in any letter case (`@` + plain identifier; the type is `atTyp
 with the lower-cased spelling, else ATKEYWORD), the five match operators and CDO (fixed lexemes), the
 single-character tokens `,:;{}>[]`; `render` joins the lexemes with single spaces; `expected` is the list of
 (type, value) pairs with an S token between neighbours.
-Not yet covered by a theorem (classification oracle only): signed / fractional numbers, FUNCTION, STRING, URI,
-UNICODE-RANGE, COMMENT, CDC, identifiers that start with `-`, `u`, `U`, a non-ASCII code point or an escape. -/
+The other classes (FUNCTION, STRING, URI, UNICODE-RANGE, COMMENT, CDC, fractional numbers, identifiers that start with
+`-`, `u`, `U`) are covered by `Lex2` / `lexeme_separation_all` below. -/
 
 /-- **T5.6 (classes NUMBER, PERCENTAGE, DIMENSION, HASH, IDENT, ATKEYWORD incl. the reserved at-rules, match
 operators, CDO, single-character tokens)**: a text produced from such tokens separated by single spaces is recovered
@@ -360,14 +360,16 @@ example : expected [Lex.pct 53 [48], .dim 49 [] 112 [120], .hash 102 [48, 48]] =
 
 `Lex2` (Lemmas/TokLex2Sep.lean) adds to `Lex`: STRING (quote `"` or `'`, a body without backslash, line break or the
 delimiter — the other quote may occur —, the same quote; `strI`: ANY body made of string items, with escapes and line
-continuations, value = `stringValue`), IDENT with one or two leading hyphens or starting with `u` / `U`, URI in quoted form (`uriQ`: `url(` white
+continuations, value = `stringValue`), IDENT with one or two leading hyphens or starting with `u` / `U`, NUMBER with sign and fraction (`numF`),
+UNICODE-RANGE intervals, URI in quoted form (`uriQ`: `url(` white
 space? string white space? `)`, value = `stringValue`), FUNCTION (plain identifier other than `and` in any letter
 case, `(`), URI (`url(` in any letter case, an unquoted body of printable ASCII other than quotes, `)`, backslash and
 white space, `)`), UNICODE-RANGE (`U+`/`u+`, one to six hex digits or `?`), COMMENT (`/*`, any body in which no `*/` ends,
 `*/`) and CDC. `render2` joins the lexemes with single spaces; `expectedAll` lists (type, value) with an S token between
 neighbours; a COMMENT token is not yielded when comments are off. S (any run of white space) and INVALID (which a
 space does not end) have class theorems of their own.
-Still on the classification oracle only: names with escapes or non-ASCII code points, signed / fractional numbers,
+Still on the classification oracle only: names with escapes or non-ASCII code points, signed integers, signed or
+fractional PERCENTAGE / DIMENSION,
 unquoted URLs with escapes. -/
 
 /-- **T5.6 for all token classes** (plain lexemes): a text produced from grammar tokens of the classes NUMBER,
@@ -421,14 +423,22 @@ theorem pattern_consumes_its_classes (cs : List (Nat × Nat)) (r : Re) (h : cons
 
 /-- numbers with sign and fraction, at the level of the number pattern (`{num}` = `reNUMBER`): an optional sign,
 digits (possibly none), `.`, at least one digit is matched exactly when no digit follows.
-Full statement (class theorem): `scan … = .hit "NUMBER" …` for such a number followed by the end of the text or a
-space, and the PERCENTAGE / DIMENSION analogues. Missing: the scan over the productions before NUMBER (IDENT / FUNCTION
-after a leading `-`, DIMENSION and PERCENTAGE through `numRe_then_nil`). -/
-theorem number_fraction_first_partial (sg ip : Cps) (d : Nat) (ds stop : Cps) (hsg : IsSign sg)
+(`number_fraction_class` is the scan-level class theorem; the PERCENTAGE / DIMENSION analogues and signed integers are
+not done.) -/
+theorem number_fraction_first (sg ip : Cps) (d : Nat) (ds stop : Cps) (hsg : IsSign sg)
     (hip : ∀ c ∈ ip, isDigit c = true) (hd : ∀ c ∈ d :: ds, isDigit c = true)
     (hs : HeadIn (fun c => isDigit c = false) stop) :
     reNUMBER.first (sg ++ (ip ++ 46 :: d :: (ds ++ stop))) = some (sg.length + (ip.length + (1 + (1 + ds.length)))) :=
   numRe_first_frac sg ip d ds stop hsg hip hd hs
+
+/-- **NUMBER class, fraction form**: optional sign, digits (possibly none), `.`, at least one digit, followed by the
+end of the text or a space, is scanned as one NUMBER token: IDENT and FUNCTION (which may start with `-`), DIMENSION
+and PERCENTAGE do not match -/
+theorem number_fraction_class (doC : Bool) (sg ip : Cps) (d : Nat) (ds stop : Cps) (hsg : IsSign sg)
+    (hip : ∀ c ∈ ip, isDigit c = true) (hd : ∀ c ∈ d :: ds, isDigit c = true) (hs : Sep stop) :
+    scan false doC (sg ++ (ip ++ 46 :: d :: (ds ++ stop))) productions =
+      .hit "NUMBER" (sg.length + (ip.length + (1 + (1 + ds.length)))) :=
+  scan_number_frac doC sg ip d ds stop hsg hip hd hs
 
 /-- `-12.50 ` and `.5` -/
 example : reNUMBER.first ([45] ++ ([49, 50] ++ 46 :: 53 :: ([48] ++ [32]))) = some 6 ∧
